@@ -602,7 +602,11 @@ namespace
             in.z = gen_field_spec(rng, env.g, env.R, cls);
             if (s == 0 || rng.chance(0.3))
             {
-                in.mask = gen_mask(rng, env.g, env.R, in.mask_cls);
+                auto mk = gen_mask(rng, env.g, env.R, in.mask_cls);
+                // a mask, once set on a graph, stays set: "no mask" afterwards means an all-false mask
+                if (mk.empty() && !in.mask.empty())
+                    mk.assign(n, 0);
+                in.mask = mk;
                 in.custom_bl = gen_base_levels(rng, env.R, in.bl, in.bl_cls) || in.custom_bl;
             }
             fix_domain(rng, env.R, in, true);
